@@ -17,7 +17,10 @@ def chain(pid, checks_q, checks_t, steps=100, shards_t=16, floor=0.3, **kw):
             "3 tenants, 3 providers, 2 auditors, 1 outsider; fees are zero; block gaps are bounded by 120 blocks per step",
         ],
     }
+    extra = kw.pop("extra_units", None)
     d.update(kw)
+    if extra:
+        d["units"] = d["units"] + extra
     return d
 
 
@@ -29,7 +32,9 @@ PROPS = {
     "C02": chain("C02_App", 60, 1200, floor=0.3,
         technique="property-based testing: exhaustive small-domain enumeration of the escrow keeper (all deposits/rates/gaps/trigger schedules) + rapid state machine over the real app; trigger-independent accrual invariants recomputed from recorded heights",
         level_text="Keeper level: all small deposits, 1-3 payments with small rates and creation offsets, and all subsets of settlement trigger points/kinds are enumerated exhaustively against closed-form accrual invariants. App level: histories with several concurrent leases per deployment check exact accrual (never-overdrawn accounts), the never-more-than-rate-x-blocks bound, transferred = credited, balance+transferred = deposits, and the overdraft distribution validity predicate.",
-        level_note="Trusted: cosmos-sdk Int arithmetic; the keeper-level ledger bank is a harness stub; enumeration bounds are stated in the evidence."),
+        level_note="Trusted: cosmos-sdk Int arithmetic; the keeper-level ledger bank is a harness stub; enumeration bounds are stated in the evidence.",
+        extra_units=[{"pkg": "x/escrow/keeper", "run": "^TestVerif_C02_Enum$", "checks": 1, "norapid": True, "shards": {Q: 1, T: 16}, "timeout": {Q: 600, T: 3000},
+                      "env": {"VERIF_C02_SHARDS": {Q: 1, T: 16}}}]),
     "C03": chain("C03", 60, 1500, floor=0.3,
         technique="property-based testing: rapid state machine over the real app, escrow record invariants + chain's own ValidateGenesis as oracle + close-takes-effect postconditions",
         level_text="Histories biased towards closes with zero elapsed blocks / zero accrued balance; after every step a full escrow scan checks open/closed/overdrawn agreement, zero balances of closed records, immutability of closed records, escrow.ValidateGenesis(ExportGenesis) and the postcondition of every successful close message.",
@@ -65,6 +70,17 @@ PROPS = {
         "level_note": "Trusted: Go crypto/x509 for building certificates (serials it refuses to encode are outside the domain); explores sampled histories only; listings may contain non-matching extras without alarm (the statement only demands inclusion).",
         "assumptions": ["serial numbers are non-negative and encodable by crypto/x509 (<= 20 octets)"],
         "units": [{"pkg": "x/cert/keeper", "run": "^TestVerif_C17$", "checks": {Q: 400, T: 6000}, "shards": {Q: 2, T: 16}, "steps": 60, "timeout": {Q: 600, T: 3000}, "shrinktime": "30s"}],
+    },
+    "C19": {
+        "level": "exploration", "floor": 0.7,
+        "technique": "property-based testing: boundary-value generator for MsgCreateDeployment vs an independent big.Int limits oracle (ValidateBasic + handler on a discarded branch), plus signed boundary transactions and a stored-state invariant in the chain machine",
+        "level_text": "Create-deployment messages are derived from a valid base by 1-3 edits that put a field on or just past each bound (group/unit counts 0/1/20/21, cpu/memory/storage at min-1/min/max/max+1, totals at the group maximum +-1 through several unit x count factorisations, replica counts 0/1/50/51/2^32-1, values >= 2^63, 2^64, negative, unset, nil sub-messages, price 0/1/max/max+1, wrong/mixed denominations, duplicate/empty names, version lengths 0/31/32/33/64, deposit min-1/min/wrong denom). Admitted => every clause of the statement holds (oracle over big.Int, limits read from GetValidationConfig and params); rejected => no effect; every stored deployment satisfies the clauses after every chain-machine transaction.",
+        "level_note": "Trusted: the oracle's reading of the limits table; a panic inside validation counts as rejection (as in baseapp.runTx).",
+        "assumptions": ["network denomination uakt; limits as returned by GetValidationConfig() at run time"],
+        "units": [
+            {"pkg": "app", "run": "^TestVerif_C19_Direct$", "checks": {Q: 3000, T: 60000}, "shards": {Q: 2, T: 16}, "timeout": {Q: 600, T: 3000}, "shrinktime": "30s"},
+            {"pkg": "app", "run": "^TestVerif_C19_Chain$", "checks": {Q: 30, T: 400}, "shards": {Q: 2, T: 16}, "steps": 60, "timeout": {Q: 600, T: 3000}, "shrinktime": "30s"},
+        ],
     },
     "C15": {
         "level": "exploration",
